@@ -112,6 +112,15 @@ example : (⟨[1,2,3,4], [5,6,7,8], [9,9,9,9], [0,0,0,0], [0,0,0,0], List.replic
     List.replicate 8 8, [0,0], [104, 105], [33]⟩ : InfoFork).WF := by
   simp [InfoFork.WF, InfoFork.fixedWF]
 
+/-- Flattened file object: the upload parser (`ReadFrom`) applied to an emitted header yields the
+    fork count, information fork and data size the header was built from, whatever file data
+    follows — so the INFO size prefix equals the fork bytes that follow and the DATA header is
+    found right behind them. -/
+theorem flattened_header_decode_encode (fc : Nat) (i : InfoFork) (ds : Nat) (h : i.WF)
+    (hn : i.name.length + 74 < 65536) (hfc : fc < 65536) (hds : ds < 4294967296) (rest : Bytes) :
+    ffoDecode (ffoHeader fc i ds ++ rest) = .ok (fc, i, ds) :=
+  ffoDecode_header fc i ds h hn hfc hds rest
+
 /-- Transfer preamble: the 16 bytes a transfer connection starts with decode to the reference number
     and size they were built from, whatever follows them on the stream. -/
 theorem transfer_preamble_decode_encode (ref size : Nat) (hr : ref < 4294967296) (hs : size < 4294967296) (rest : Bytes) :
